@@ -1,4 +1,6 @@
 package main
 
 func factsC07() {
+	// AddBackendPath: ID: fmt.Sprintf("path%02d", len(b.Paths)+1)
+	addStr("c07PathIDFormat", one(callArgs("pkg/haproxy/types/backend.go", "AddBackendPath", "fmt.Sprintf", 0), "path id format"), "backend.go AddBackendPath: format of a path id")
 }
